@@ -29,6 +29,12 @@ def table(r, fn_sig, call):
 def build(ctx):
     r = ctx.repo
     ctx.emit('getOrdinal.body.inc', r.function(H, r'constexpr\s+size_t\s+getOrdinal\s*\(\s*size_t\s+blockSize\s*\)'), must_fire=['R3', 'R2'])
+    big = r.function(H, r'inline\s+std::enable_if_t<\(kBlockSize\s*>\s*kMaxSmallBufferSize\),\s*char\*>\s+allocSmallOrLarge\s*\(\s*\)')
+    ctx.emit('allocSmallOrLarge_large.body.inc', big, must_fire=['R19'],
+             subs=[('R19', r'reinterpret_cast<char\*>\(alignedMalloc\(([^,()]+),\s*([^,()]+)\)\)', r'G_alignedMalloc2(\1, \2)', 'opt'),
+                   ('R19', r'reinterpret_cast<char\*>\(alignedMalloc\(([^,()]+)\)\)', r'G_alignedMalloc1(\1)', 'opt')])
+    import re as _re
+    mk = _re.search(r'constexpr\s+size_t\s+kMaxSmallBufferSize\s*=\s*(\d+)\s*;', r.text('dispenso/platform.h') + r.text(H))
     ta = table(r, r'char\*\s+allocSmallBufferImpl\s*\(\s*size_t\s+ordinal\s*\)', r'alloc\(\)')
     td = table(r, r'void\s+deallocSmallBufferImpl\s*\(\s*size_t\s+ordinal\s*,\s*void\*\s*buf\s*\)', r'dealloc\(')
     tb = table(r, r'size_t\s+approxBytesAllocatedSmallBufferImpl\s*\(\s*size_t\s+ordinal\s*\)', r'bytesAllocated\(\)')
@@ -74,10 +80,11 @@ def build(ctx):
     if p.returncode != 0:
         raise X.ExtractionError('SBA probe failed: ' + p.stderr[-400:])
     kideal, kmax, kmalloc, kper = subprocess.run([exe], capture_output=True, text=True).stdout.split()
-    d = {'ORD_TABLE_ALLOC': ta, 'ORD_TABLE_DEALLOC': td, 'ORD_TABLE_BYTES': tb, 'KIDEAL': kideal, 'KMAXTL': kmax, 'KMALLOC': kmalloc, 'KPERMALLOC': kper, 'KCHUNK': '64'}
+    d = {'ORD_TABLE_ALLOC': ta, 'ORD_TABLE_DEALLOC': td, 'ORD_TABLE_BYTES': tb, 'KIDEAL': kideal, 'KMAXTL': kmax, 'KMALLOC': kmalloc, 'KPERMALLOC': kper, 'KCHUNK': '64', 'KCACHELINE': '64'}
     S = 'specs/c41_sba.c'
     units = [
         Unit('getOrdinal', 'cbmc', S, 'getOrdinal', defines=d, replace=['log2const64'], expect=[r'postcondition']),
+        Unit('allocSmallOrLarge(N>256)', 'cbmc', S, 'allocSmallOrLarge_large', defines=d, replace=['G_alignedMalloc2', 'G_alignedMalloc1'], expect=[r'postcondition']),
         Unit('size_class(N)', 'cbmc', S, 'c41_size_class', defines=d, replace=['log2const64'], expect=[r'postcondition\.2']),
         Unit('SmallBufferAllocator::alloc', 'cbmc', S, 'SBA_alloc', defines=d, replace=['grabFromCentralStore'], expect=[r'postcondition\.2'], timeout=300, flags=['--nondet-static']),
         Unit('SmallBufferAllocator::dealloc', 'cbmc', S, 'SBA_dealloc', defines=d, replace=['recycleToCentralStore'], expect=[r'postcondition\.1'], timeout=300, flags=['--nondet-static']),
